@@ -59,6 +59,14 @@ Pool == <<
   \* a left operand with an effect next to a right operand whose VALUE the incremental route knows
   Set("bf", Bin("<", Deref(V("c")), I(0))),
   Set("bb", AndE(Bin(">", Asg("+=", V("c"), I(1)), I(0)), V("bf"))),
+  \* a declared function that WRITES a top-level cell: a second run of the same parsed program starts from fresh cells,
+  \* and the function made by that run works on that run's cell
+  FnDecl("inc", <<>>, WInt, <<Ret(Asg("+=", V("c"), I(1)))>>),
+  CallE(V("inc"), <<>>),
+  \* a type test whose pattern is WIDER than the tested value's own type (a union, any) on a name bound by an earlier input:
+  \* the incremental route knows the value, the batch route the declared type; both must take the same branch
+  Set("ts", IfSet("q2", WMulti(<<WInt, WStr>>), V("x"), I(1), I(0))),
+  Set("ta", Match(V("x"), <<ArmTy("q3", WAny, I(1))>>)),
   \* a loop body that reads x and later declares its own x: every round — also after `continue' — starts afresh
   Set("lv", Block(<<Set("acc", MutE(WInt, I(0))), Set("k", MutE(WInt, I(0))),
                    Loop(Block(<<Asg("+=", V("k"), I(1)), If1(Bin(">", Deref(V("k")), I(3)), Break),
